@@ -126,6 +126,7 @@ type C11Case struct {
 	Reopen   []C11Reopen  `json:"reopen,omitempty"`
 	Listener *C11Listener `json:"listener,omitempty"`
 	Storm    *C11Storm    `json:"storm,omitempty"`
+	Flood    *C11Flood    `json:"flood,omitempty"`
 }
 
 func genClosers(t *rapid.T) (int, int) {
@@ -137,6 +138,7 @@ func genC11(t *rapid.T) C11Case {
 		"close_mux", "close_mux", "close_mux", "close_mux", "close_mux", "close_mux",
 		"cut_write", "cut_write", "cut_write", "cut_write",
 		"storm", "storm", "storm",
+		"flood", "flood", "flood",
 		"overflow", "overflow", "overflow",
 		"cut_read", "cut_read",
 		"read_error", "read_error", "read_error", "read_error",
@@ -150,6 +152,9 @@ func genC11(t *rapid.T) C11Case {
 	}
 	if kind == "storm" {
 		return genC11Storm(t)
+	}
+	if kind == "flood" {
+		return genC11Flood(t)
 	}
 	c := C11Case{Kind: "mux"}
 	if kind == "overflow" {
